@@ -156,7 +156,7 @@ def judge(x, out, lang, mods):
     if permute:
         kx = [kt for kt in kx if kt[1] not in allowed or kt[0] != 't']
         ko = [kt for kt in ko if kt[1] not in allowed or kt[0] != 't']
-        if Counter(kx) != Counter(ko):
+        if Counter(kx) != Counter(ko) and not (lang not in lex.PRECISE and sorted(''.join(t for _, t in kx)) == sorted(''.join(t for _, t in ko))):
             d = list((Counter(kx) - Counter(ko)).items())[:3] + list((Counter(ko) - Counter(kx)).items())[:3]
             v.append(('multiset', 'token multiset changed under a reordering option: %s' % d))
         return v
